@@ -40,6 +40,8 @@ void harness(void){
   for(int i=0;i<64;i++){ modes[i].blockflag=ND_irange(0,1); modes[i].mapping=0; ci.mode_param[i]= i<ci.modes? &modes[i]:0; }
   b.modebits=ov_ilog(ci.modes-1);
   memset(&vb,0,sizeof vb); vb.vd=&vd;
+  /* the block is REUSED across packets: whatever an earlier real decode left in it (pcm pointer, pcmend, flags) is arbitrary here */
+  static float *stale_rows[CH]; if(ND_BOOL()){ vb.pcm=stale_rows; vb.pcmend=ND_irange(0,8192); vb.W=ND_irange(0,1); vb.lW=ND_irange(0,1); vb.nW=ND_irange(0,1); vb.mode=ND_irange(0,63); vb.sequence=ND_long(); vb.granulepos=ND_long(); vb.eofflag=ND_irange(0,1); }
   unsigned char pk[2]={ND_uchar(),ND_uchar()}; ogg_packet op; memset(&op,0,sizeof op); op.packet=pk; op.bytes=ND_irange(0,2);
   op.granulepos=ND_long(); op.packetno=ND_long(); op.e_o_s=ND_irange(0,1); inv_ret=ND_irange(-1,0);
   /* reference parse (spec 4.3.1) over the bit string */
